@@ -712,6 +712,59 @@ func managerCase(r *evid.Run, rg *rand.Rand, cs int64) {
 	}
 	r.Hit("manager_encryptions_racing_with_lock", len(recs))
 
+	// A passphrase change inside a database transaction that is then rolled back
+	// changes nothing: the running manager keeps accepting exactly the passphrases
+	// whose parameters are stored (public: as the old passphrase of a further
+	// change; private: Unlock), and refuses the ones that were never committed.
+	errRB := errors.New("rolled back on purpose")
+	pubCur := []byte("pub")
+	for i := 0; i < 3; i++ {
+		rbPub, rbPriv := []byte(fmt.Sprintf("pub-never-%d", i)), []byte(fmt.Sprintf("priv-never-%d", i))
+		private := i%2 == 1
+		walletdb.Update(db, func(tx walletdb.ReadWriteTx) error {
+			var e error
+			if private {
+				e = m.ChangePassphrase(tx.ReadWriteBucket(ns), append([]byte(nil), cur...), rbPriv, true, &waddrmgr.FastScryptOptions)
+			} else {
+				e = m.ChangePassphrase(tx.ReadWriteBucket(ns), append([]byte(nil), pubCur...), rbPub, false, &waddrmgr.FastScryptOptions)
+			}
+			if e != nil {
+				return e
+			}
+			return errRB
+		})
+		if private {
+			m.Lock()
+			if err := unlock(rbPriv); err == nil {
+				r.Violation("manager-rolled-back-passphrase-accepted", "the private passphrase of a change whose transaction was rolled back unlocks the running manager", "manager", cs, nil)
+				return
+			}
+			if err := unlock(cur); err != nil {
+				r.Violation("manager-current-passphrase-rejected", fmt.Sprintf("after a private passphrase change was rolled back, Unlock(current passphrase) fails: %v", err), "manager", cs, nil)
+				return
+			}
+		} else {
+			// probe through further (rolled-back) changes naming each candidate as the old passphrase
+			try := func(old []byte) error {
+				var e error
+				walletdb.Update(db, func(tx walletdb.ReadWriteTx) error {
+					e = m.ChangePassphrase(tx.ReadWriteBucket(ns), append([]byte(nil), old...), []byte("probe"), false, &waddrmgr.FastScryptOptions)
+					return errRB
+				})
+				return e
+			}
+			if err := try(rbPub); err == nil {
+				r.Violation("manager-rolled-back-passphrase-accepted", "the public passphrase of a change whose transaction was rolled back is accepted by the running manager as the current one", "manager", cs, nil)
+				return
+			}
+			if err := try(pubCur); err != nil {
+				r.Violation("manager-current-passphrase-rejected", fmt.Sprintf("after a public passphrase change was rolled back, the stored public passphrase is refused by the running manager: %v", err), "manager", cs, nil)
+				return
+			}
+		}
+		r.Hit("manager_rolled_back_passphrase_changes_checked", 1)
+	}
+
 	// A watching-only manager has no private or script crypto key (its buffers are
 	// all-zero placeholders): it must not hand out "ciphertexts" sealed under them,
 	// nor accept a ciphertext anybody could have made with the all-zero key, nor
